@@ -102,9 +102,22 @@ def run(chk: Check):
         weights = None if nw is None else np.array([rng.choice([0.5, 1.0, 2.0, 0.25, -1.0, 3.0]) for _ in range(nw)])
         if wk == "zero" and nw:
             weights[rng.randrange(nw)] = 0.0
+        wform = "float64"
+        if weights is not None and rng.random() < 0.35:
+            # the same kind of weights in other admissible containers / dtypes: whole numbers as an integer array, a list or a tuple; float32
+            wform = rng.choice(["int_array", "int_list", "int_tuple", "float32"])
+            if wform == "float32":
+                weights = weights.astype(np.float32).astype(np.float64)          # values exactly representable in float32
+            else:
+                weights = np.array([float(rng.choice([1, 2, 3, 0, -1])) for _ in range(len(weights))])
+        chk.count("weights_form:" + wform)
         ftags = None if nf is None else [rng.choice([0, 0, 1, 2, 3]) for _ in range(nf)]
         filters = None if ftags is None else [FILTERS[g] for g in ftags]
-        loss = make_stub(kind, weights, filters)
+        w_in = weights
+        if weights is not None and wform != "float64":
+            w_in = {"int_array": lambda w: w.astype(np.int64), "int_list": lambda w: [int(x) for x in w], "int_tuple": lambda w: tuple(int(x) for x in w),
+                    "float32": lambda w: w.astype(np.float32)}[wform](weights)
+        loss = make_stub(kind, w_in, filters)
         s0, r0 = sim.tobytes(), real.tobytes()
         try:
             v = loss.compute_loss(sim, real)
@@ -171,7 +184,7 @@ def run(chk: Check):
                 _CUR["d"] = len(k["coordinate_weights"]) if k.get("coordinate_weights") is not None else k.pop("_d", _d)
                 k.pop("_d", None)
                 return _mk0(**k)
-            weights = rng.choice([None, np.array([rng.random() + 0.1 for _ in range(d)])])
+            weights = rng.choice([None, np.array([rng.random() + 0.1 for _ in range(d)]), np.array([rng.randint(1, 4) for _ in range(d)])])     # the last: integer dtype
             loss = mk(coordinate_weights=weights)
             case = {"case": {"kind": "builtin", "loss": name, "E": e, "N": n, "D": d}}
             with warnings.catch_warnings(), np.errstate(all="ignore"):
